@@ -250,6 +250,12 @@ func genC14(seed uint64) *C14Case {
 		case 4: // slice of transpose
 			o := Op{Name: "T", In: []int{cs.Src}, Out: -1}
 			w.Exec(&o)
+			if w.get(cs.Src) == nil {
+				if os.Getenv("VERIF_DEBUG_GEN") != "" {
+					fmt.Fprintln(os.Stderr, "genC14: T refused:", w.lastErr, cs.Build)
+				}
+				return genC14(seed*0x9e3779b97f4a7c15 + 1) // the transposition was refused and its operand retired
+			}
 			o2 := Op{Name: "Slice", In: []int{cs.Src}, I: g.sliceEnc(w.get(cs.Src)), Out: g.newSlot()}
 			w.Exec(&o2)
 			cs.Build = append(cs.Build, o)
@@ -260,6 +266,9 @@ func genC14(seed uint64) *C14Case {
 				cs.Layout += "+slice"
 			}
 		}
+	}
+	if w.get(cs.Src) == nil {
+		return genC14(seed*0x9e3779b97f4a7c15 + 1)
 	}
 	b2 := cs.Build[0]
 	b2.F = float64(int(b2.F)%900 + 3)
